@@ -222,7 +222,7 @@ int_t superlu_sQuerySpace(int_t P, SuperMatrix *L, SuperMatrix *U, int_t panel_s
     lwork = superlu_sTempSpace(n, panel_size, P);
     superlu_memusage->total_needed = superlu_memusage->for_lu + lwork;
 
-    superlu_memusage->expansions = --no_expand;
+    superlu_memusage->expansions = no_expand - 1;
 
     return 0;
 }
